@@ -313,6 +313,119 @@ def _wf_contracts():
 CONTRACTS += _wf_contracts()
 
 
+class ReorderDims(Contract):
+    """reorderDimensions(old, new) on a file with dimensions t, y, x of ARBITRARY lengths and variables v(t, y, x), u(y, x),
+    w(t): every variable is re-laid-out so that its own dimensions appear in the order they have in `new`; its dimension
+    tuple says so, its shape is the lengths of those dimensions in that order (well-formed), and every element is the
+    source element at the correspondingly permuted index; the input is unchanged."""
+    prop = 'C01'
+    target = 'core/_files.py::PseudoNetCDFFile.reorderDimensions'
+    max_paths = 80
+
+    def __init__(self, neworder):
+        self.neworder = tuple(neworder)
+        self.name = 'reorderDimensions[-> %s]' % ','.join(neworder)
+
+    def inputs(self, ctx, I):
+        from pyvc import frontend
+        from pyvc.nparr import sym_array
+        self.n = dict(t=ctx.fresh('nt'), y=ctx.fresh('ny'), x=ctx.fresh('nx'))
+        mod = frontend.load('core/_variables.py')
+        cls = I.classref(mod, mod.find('PseudoNetCDFVariable')[0])
+
+        def var(name, dims):
+            a = sym_array(name, tuple(self.n[d] for d in dims), 'f')
+            a.cls = cls
+            a.attrs.update(dimensions=dims, _ncattrs=('units',), units='ppb')
+            return a
+        self.vars = dict(v=var('v', ('t', 'y', 'x')), u=var('u', ('y', 'x')), w=var('w', ('t',)))
+        self.pre = {k: a.buf.get for k, a in self.vars.items()}
+        f = pnc_file(I, dimensions={'t': dim_obj(I, 't', self.n['t'], unlimited=True), 'y': dim_obj(I, 'y', self.n['y']), 'x': dim_obj(I, 'x', self.n['x'])},
+                     variables=dict(self.vars), attrs=dict(title='src'))
+        self.f = f
+        return dict(self=f, oldorder=('t', 'y', 'x'), neworder=self.neworder)
+
+    def requires(self, inp):
+        return And(*[ge(x, 1) for x in self.n.values()])
+
+    def small(self, inp):
+        return And(*[le(x, 2) for x in self.n.values()])
+
+    def ensures(self, inp, res, I):
+        from pyvc.nparr import SArr
+        out = wf_clauses(res, {'t': True, 'y': False, 'x': False})
+        if not hasattr(res, 'attrs') or 'variables' not in res.attrs:
+            return out
+        vs = res.attrs['variables']
+        out.append(('is-a-new-file', res is not self.f))
+        q = [z3.Int('q0'), z3.Int('q1'), z3.Int('q2')]
+        for key, src in self.vars.items():
+            X = vs.get(key)
+            old = src.attrs['dimensions']
+            want = tuple(d for d in self.neworder if d in old)
+            if not isinstance(X, SArr):
+                out.append(('%s is a variable of the result' % key, False))
+                continue
+            out.append(('%s: dimensions in the requested order' % key, tuple(X.attrs.get('dimensions', ())) == want))
+            if tuple(X.attrs.get('dimensions', ())) != want or X.ndim != len(want):
+                continue
+            idx = q[:len(want)]
+            rng = And(*[And(ge(i, 0), lt(i, self.n[d])) for i, d in zip(idx, want)])
+            srcidx = tuple(idx[want.index(d)] for d in old)
+            out.append(('%s: every element is the source element at the permuted index' % key, Implies(rng, eq(X.get(tuple(idx)), self.pre[key](srcidx)))))
+            out.append(('%s: the source is unchanged' % key, Implies(rng, eq(src.buf.get(srcidx), self.pre[key](srcidx)))))
+            out.append(('%s: fresh buffer' % key, X.buf is not src.buf))
+        return out
+
+
+    # -- replay on the real function -----------------------------------------------------------------------------------
+    def concretize(self, model, inp):
+        from pyvc.verify import model_value
+        return dict(neworder=list(self.neworder), n={k: model_value(model, v) for k, v in self.n.items()})
+
+    def concretize_without_model(self, inp):
+        return dict(neworder=list(self.neworder), n=dict(t=2, y=3, x=4))
+
+    def replay(self, c):
+        import numpy as np
+        P = import_real()
+        out = None
+        for n in (c['n'], dict(t=2, y=3, x=4)):
+            n = {k: int(v) for k, v in n.items()}
+            if not all(1 <= v <= 12 for v in n.values()):
+                continue
+            f = P.PseudoNetCDFFile()
+            f.createDimension('t', n['t']).setunlimited(True)
+            f.createDimension('y', n['y'])
+            f.createDimension('x', n['x'])
+            rng = np.random.default_rng(8)
+            vd = dict(v=('t', 'y', 'x'), u=('y', 'x'), w=('t',))
+            data = {k: rng.random(tuple(n[d] for d in dims)) for k, dims in vd.items()}
+            for k, dims in vd.items():
+                f.createVariable(k, 'd', dims, values=data[k].copy(), units='ppb')
+            try:
+                g = f.reorderDimensions(('t', 'y', 'x'), tuple(c['neworder']))
+            except Exception as e:
+                return False, dict(raised=type(e).__name__, message=str(e)[:160], sizes=n, neworder=c['neworder'])
+            bad = []
+            for k, dims in vd.items():
+                want = tuple(d for d in c['neworder'] if d in dims)
+                exp = np.transpose(data[k], [dims.index(d) for d in want])
+                gv = g.variables[k]
+                if tuple(gv.dimensions) != want or gv.shape != exp.shape or not np.array_equal(np.asarray(gv[...]), exp):
+                    bad.append('%s: dimensions %r shape %r, expected %r %r' % (k, tuple(gv.dimensions), gv.shape, want, exp.shape))
+                if not np.array_equal(np.asarray(f.variables[k][...]), data[k]):
+                    bad.append('%s: input modified' % k)
+            r = (not bad, dict(sizes=n, neworder=c['neworder'], failed=bad))
+            if bad:
+                return r
+            out = out or r
+        return out
+
+
+CONTRACTS += [ReorderDims(p) for p in (('x', 'y', 't'), ('y', 't', 'x'), ('x', 't', 'y'), ('t', 'x', 'y'), ('y', 'x', 't'), ('t', 'y', 'x'))]
+
+
 # ---------------------------------------------------------------------------
 # bounded stand-in
 # ---------------------------------------------------------------------------
@@ -386,7 +499,7 @@ def bounded_replay(p):
 META = dict(
     level='other',
     technique='contracts proved on the dimension/attribute book-keeping and on the well-formedness of the results of five whole operations (pyvc) + bounded run-time contract wf(result) over operation sequences',
-    text='Proved for files of ANY size: the results of sliceDimensions (6 selector kinds), applyAlongDimensions, stack (2, 3 files), pncbo and mask are well-formed (dimension names exist, '
+    text='Proved for files of ANY size: reorderDimensions for all 6 orders of three dimensions (dimension tuples, shapes, every element at the permuted index, input unchanged); the results of sliceDimensions (6 selector kinds), applyAlongDimensions, stack (2, 3 files), pncbo and mask are well-formed (dimension names exist, '
          'shape = dimension lengths in order, unlimited flags kept, listed attributes retrievable). Proved (all inputs): dimension objects store length/flag, attribute list book-keeping of __setattr__/__delattr__, allocation of plain and masked variables from the parent dimension lengths (ranks 0,1,2,4; symbolic lengths), '
          'copyDimension length and unlimited-flag propagation. Bounded (never counted as proved): wf(result) checked at run '
          'time on the real operations for all catalogue sequences up to the stated length; numpy shape semantics cannot be '
